@@ -227,7 +227,7 @@ def run(ctx):
     for b in (bad + meta_bad)[:6]:
         ctx.finding("dim:" + b["complaint"][:60], b["complaint"], {"kind": "failing-input", "case": b["case"],
                     "how": "matid.geometry.get_dimensionality(Atoms(positions, cell, pbc), threshold, radii=np.array(radii), return_clusters=True)"})
-    if broken and not ctx.findings:
+    if broken and not ctx.unknown_findings():
         ctx.finding("unproved", "proof/correspondence broken, no failing input found", {"kind": "broken-obligation", "broken": broken}, found_input=False)
     ctx.coverage["broken"] = [{"what": k, "info": i} for k, i in broken]
     ctx.coverage["correspondence_mismatches"] = len(mism)
